@@ -1,4 +1,13 @@
-"""C14 -- protocols: each step's parameter values hold exactly over its interval.  See harness/c04_sim.py."""
+"""C14 -- protocols: each step's parameter values hold exactly over its interval.
+
+Shares the model, extractor, drivers and the history oracle with C04 (harness/c04_sim.py); adds the
+protocol-specific oracle:
+  (a) a protocol call equals the MANUAL sequence update_parameters(step i) ; simulate(start + T_i) /
+      simulate_time_course(points of the union in (T_(i-1), T_i]) replayed on a second real Simulator;
+  (b) the time-course axis is exactly {start} + requested points inside the protocol + boundaries, each once,
+      and raw_parameters of every step's segment are that step's values (judged by c04_sim.oracle_history);
+  (c) the fluxes reported for a segment are the rate laws evaluated with THAT segment's parameter values.
+"""
 
 from __future__ import annotations
 
@@ -12,21 +21,143 @@ AREA = S.AREA
 PROPS = "PropsC14.v"
 PROP = "C14"
 
+CORPUS: list[dict] = [
+    {"mode": "exact", "y0": ["1", "1"], "p0": ["1", "1/2", "0", "0"],
+     "ops": [["prot", [["1", {"k": "2"}], ["2", {"k": "1/2"}], ["1/2", {"k": "0"}]], 2]]},
+    {"mode": "exact", "y0": ["1", "1"], "p0": ["1", "1/2", "0", "0"],
+     "ops": [["sim", "2", 2], ["updvar", {"y": "0"}], ["prot", [["1", {"k": "2"}], ["2", {"k": "1/2"}]], 4],
+             ["ptc", [["1", {"k": "2"}], ["2", {"k": "1/2"}], ["1/2", {"k": "0"}]], ["1/2", "1", "9/4", "3", "7/2", "9"], True]]},
+    {"mode": "scipy", "y0": ["2", "1"], "p0": ["1", "1/2"],
+     "ops": [["ptc", [["1", {"k": "2"}], ["1", {"k": "0"}], ["1", {"k": "1/2"}]], ["0", "1/2", "1", "3/2", "5/2", "3", "4"], False]]},
+    {"mode": "scipy", "y0": ["2", "1"], "p0": ["1", "1/2"],
+     "ops": [["tc", ["1", "2"]], ["ptc", [["1", {"k": "2"}], ["1", {"k": "0"}]], ["5/2", "3", "7/2"], False], ["sim", "5", 2]]},
+]
+
 
 def gen() -> dict[str, str]:
     return S.gen()
 
 
+def _manual_ops(op: list, start: F) -> list:
+    """the sequence a user would issue by hand instead of the protocol call"""
+    steps = op[1]
+    ends, acc = [], start
+    for d, _ in steps:
+        acc += S.fr(d)
+        ends.append(acc)
+    out = []
+    if op[0] == "prot":
+        for (_, u), e in zip(steps, ends):
+            out += [["updpar", u], ["sim", S.js(e), op[2]]]
+        return out
+    pts = [S.fr(t) for t in op[2]]
+    if op[3]:
+        pts = [t + start for t in pts]
+    union = sorted(set(pts) | set(ends))
+    a = start
+    for (_, u), e in zip(steps, ends):
+        out += [["updpar", u], ["tc", [S.js(t) for t in union if a < t <= e]]]
+        a = e
+    return out
+
+
+def _same(mode: str, a, b) -> bool:  # noqa: ANN001
+    if a is None or b is None:
+        return a is b
+    if len(a) != len(b):
+        return False
+    for sa, sb in zip(a, b):
+        if len(sa) != len(sb):
+            return False
+        for ra, rb in zip(sa, sb):
+            if ra[0] != rb[0]:
+                return False
+            for va, vb in zip(ra[1:], rb[1:]):
+                if mode == "exact":
+                    if va != vb:
+                        return False
+                elif abs(float(va) - float(vb)) > 1e-9 + 1e-9 * abs(float(vb)):
+                    return False
+    return True
+
+
 def oracle_protocols(h: dict, r: dict) -> list[dict]:
-    return []
+    bad: list[dict] = []
+    obs = r["obs"]
+    mode = h["mode"]
+    # (a) protocol == manual sequence
+    manual: list = []
+    marks: list[tuple[int, int]] = []  # (index in h of the protocol op, index in manual history of its last op)
+    legal = True
+    for i, op in enumerate(h["ops"]):
+        if op[0] in ("prot", "ptc") and obs[i]["out"] == "done" and obs[i]["err"] == "none" and legal:
+            prev = obs[i - 1]["segs"] if i else None
+            nonempty = [s for s in (prev or []) if s]
+            start = S.fr(nonempty[-1][-1][0]) if nonempty else F(0)
+            if op[0] == "ptc":
+                pts = [S.fr(t) + (start if op[3] else 0) for t in op[2]]
+                if not S._incr(pts):
+                    manual.append(op)
+                    continue
+            manual += _manual_ops(op, start)
+            marks.append((i, len(manual) - 1))
+        else:
+            manual.append(op)
+    if marks:
+        r2 = S.run_history(mode, h["y0"], h["p0"], manual)
+        if r2["discard"] is None:
+            for i, j in marks:
+                o1, o2 = obs[i], r2["obs"][j]
+                if not _same(mode, o1["segs"], o2["segs"]) or o1["pars"] != o2["pars"] or o1["model_pars"] != o2["model_pars"]:
+                    bad.append({"op": i, "tags": [], "what": "the protocol call and the manual sequence update_parameters;simulate per step give different results: "
+                                f"index {[[x[0] for x in s] for s in o1['segs'] or []]} vs {[[x[0] for x in s] for s in o2['segs'] or []]}, "
+                                f"parameters {o1['pars']} vs {o2['pars']}"})
+    # (c) fluxes inside a step use that step's values
+    fl = r.get("fluxes")
+    if fl and obs and obs[-1]["segs"] is not None and obs[-1]["pars"] is not None:
+        segs, pars = obs[-1]["segs"], obs[-1]["pars"]
+        for k, (seg, p, cols, rows) in enumerate(zip(segs, pars, fl["columns"], fl["rows"])):
+            pv = {a: float(S.fr(b)) for a, b in p.items()}
+            for srow, frow in zip(seg, rows):
+                t = float(S.fr(srow[0]))
+                x, y = float(S.fr(srow[1])) if mode == "exact" else srow[1], float(S.fr(srow[2])) if mode == "exact" else srow[2]
+                exp = {"v1": pv["k"] * y + pv["a"] * t, "v2": pv["c"]} if mode == "exact" else {"v1": pv["k"] * x, "v2": pv["c"] * y}
+                got = dict(zip(cols, frow[1:]))
+                if srow[0] != frow[0] or any(abs(got.get(n, float("nan")) - e) > 1e-12 + 1e-9 * abs(e) for n, e in exp.items()):
+                    bad.append({"op": len(obs) - 1, "tags": [], "what": f"fluxes of segment #{k} at t={srow[0]} are {got}, but the rate laws with that "
+                                f"segment's parameter values {p} give {exp}"})
+                    break
+            if bad:
+                break
+    return bad
+
+
+def histories(run: Run) -> list[dict]:
+    thorough = run.tier == "thorough"
+    rng = common.rng_for(run.seed, "c14")
+    w = {"sim": 12, "tc": 8, "prot": 30, "ptc": 36, "steady": 0, "updpar": 5, "updvar": 10, "clear": 3}
+    hs = list(CORPUS)
+    n_exact, n_scipy = (1800, 700) if thorough else (300, 130)
+    for _ in range(n_exact):
+        hs.append(S.gen_history(rng, "exact", 4, weights=w, special=False))
+    for _ in range(n_scipy):
+        hs.append(S.gen_history(rng, "scipy", 4, weights=w, special=False))
+    return [h for h in hs if any(op[0] in ("prot", "ptc") for op in h["ops"])]
 
 
 def check(run: Run) -> None:
     facts = gen()
     run.coverage["gen_facts"] = facts
+    run.rule = (
+        "histories of 1-4 operations containing at least one simulate_protocol / simulate_protocol_time_course call (1-5 steps, "
+        "unequal dyadic durations, one or two parameters, repeated values; grids coinciding with / between / beyond the boundaries, "
+        "before the start, relative or absolute), fresh or continuing earlier simulate / time-course calls, overrides and other protocols; "
+        "real Simulator + real Scipy class on the exact stand-in solver (x'=k*y, y'=c: the state depends on WHEN k switches) and on the "
+        "real scipy (x'=-k*x, y'=k*x-c*y); non-trivial = >= 2 steps or a continued simulator; distinct by content"
+    )
     proofs_ok = run.check_proofs(AREA, PROPS)
     run.assumptions += S.ASSUMPTIONS
-    S.run_all(run, PROP, [], proofs_ok)
+    S.run_all(run, PROP, histories(run), proofs_ok)
 
 
 def replay(rep: dict) -> int:
